@@ -17,12 +17,24 @@ def direct_fault_final(session, final):
         if n > 1:
             return "Execute for run %r returned %d times" % (run, n)
         if cls == "none":
-            return "Execute for run %r never returned although the stream is broken (left: %s)" % (run, " ".join(left))
+            return "Execute for run %r never returned - a call on a broken or misbehaving stream must fail, not hang (left: %s)" % (run, " ".join(left))
     if "(close 1)" in session and close == "none":
         return "Close never returned (left: %s)" % " ".join(left)
     if close == "panic":
         return "Close panicked"
     return None
+
+
+def lost_readahead_class(session, lost, obs, dv):
+    """The one place where the model is coarser than the code (ATP/Msg.v: read-ahead is a list of whole items): a read loop
+    of the MODEL schedule ends at step `lost` with a non-empty read-ahead buffer and the transport fragments reads
+    (frag > 0), so the real decoder held a byte prefix of the next item, or nothing.  Only a difference that shows AT OR
+    AFTER that step falls in the class (an earlier divergence is a disagreement like any other)."""
+    if lost < 0 or "(frag 0)" in session:
+        return False
+    if dv is not None:
+        return int(dv["idx"]) >= lost
+    return obs.startswith("(final")
 
 
 def d25_class(session, final):
@@ -38,6 +50,13 @@ def sweep_check(tr, kind, k, obs):
     hello_end = tr["ends"][0]
     if schema == "hang":
         return "ReadSchema hangs"
+    if tr.get("badhello"):
+        # the hello message carries an unsupported version / a schema that does not unserialize: whether it arrives
+        # intact or is cut / garbled at byte k, ReadSchema has to return an error (no success, no panic, no hang)
+        if schema != "err":
+            return "ReadSchema %s although the hello message is unusable (unsupported version or invalid schema; fault %s at byte %d of %d)" % (
+                "succeeded" if schema == "ok" else "ended with " + schema, kind, k, hello_end)
+        return None
     if k < hello_end and schema == "ok":
         return "ReadSchema succeeded although the hello message is cut/garbled at byte %d of %d" % (k, hello_end)
     if k >= hello_end and schema != "ok":
@@ -68,14 +87,16 @@ def engine_c08(prop, tier, seed, work, known):
     cases = os.path.join(work, "c08.cases")
     ae.gen_cases("c08", tier, seed, cases)
     scheds = ae.model_schedules(cases, os.path.join(work, "c08.pred"))
-    items, expected = [], {}
+    items, expected, lostidx = [], {}, {}
     for cid, session, ss in scheds:
-        for k, (steps, final, complete, _flight) in enumerate(ss):
+        for k, (steps, final, complete, _flight, lostbuf) in enumerate(ss):
             if not complete:
                 raise check.ProofBroken("model", "a model schedule did not end within the fuel: case %s" % cid)
             i = "%s.%d" % (cid, k)
             items.append((i, session, steps))
             expected[i] = final
+            lostidx[i] = lostbuf
+    n_lost = 0
     obs = ae.replay(items, os.path.join(work, "replay"), timeout=2400)
     kinds = {}
     distinct = set()
@@ -85,15 +106,26 @@ def engine_c08(prop, tier, seed, work, known):
         fk = ae.field(session, "fault")
         kinds[fk or "none"] = kinds.get(fk or "none", 0) + 1
         distinct.add(hashlib.sha1((session + steps).encode()).digest())
-        why = direct_fault_final(session, o)
+        dv = ae.diverged(o)
+        o_eff = dv["final"] if dv and dv["final"] else o     # after a divergence: how the continued session ended
+        why = direct_fault_final(session, o_eff)
         why_model = direct_fault_final(session, expected[i])
-        if why:
-            if d25_class(session, o) and kf_d25 is not None:
+        if why and dv and not d25_class(session, o_eff):
+            # the correspondence broke AND the continuation of that very run on the real client violates the property
+            # (an Execute / Close that never returns, a double return, a panic): a concrete failing input
+            res["violations"].append(("atpclient", case, o, expected[i], ae.diverged_text(dv, why)))
+        elif why:
+            if d25_class(session, o_eff) and kf_d25 is not None:
                 res["known_hits"].append((kf_d25, case[:300], o[:200]))
             else:
                 res["violations"].append(("atpclient", case, o, expected[i], why + " - fault session forced gate by gate on the real client"))
         elif why_model and not (d25_class(session, expected[i])):
             raise check.ProofBroken("model", "the model predicts a hang on a fault session: %s; %s" % (why_model, session))
+        elif o != expected[i] and lost_readahead_class(session, lostidx[i], o, dv):
+            # a misbehaving peer kept sending after the client had failed the run: the read loop ended with read-ahead in its
+            # decoder.  The model drops whole items, the real decoder on a fragmenting transport a byte prefix (or nothing):
+            # from that step on only the property's own predicate is checked (it passed: `why` is empty, nothing is stuck)
+            n_lost += 1
         elif o != expected[i]:
             res["disagreements"].append(("atpclient", case, o, expected[i]))
         else:
@@ -131,6 +163,7 @@ def engine_c08(prop, tier, seed, work, known):
             if e[0] == "tr":
                 trs[e[1]] = {"ends": [int(x) for x in ae.split_top(ae.field(line, "ends"))[1:]],
                              "okmsg": [int(x) for x in ae.split_top(ae.field(line, "okmsg"))[1:]],
+                             "badhello": ae.field(line, "badhello") == "(badhello 1)",
                              "line": line}
                 continue
             name, kind, k, o = e[1], e[2], int(e[3]), e[4]
@@ -142,6 +175,7 @@ def engine_c08(prop, tier, seed, work, known):
     res["evaluations"] += nsweep
     res["distinct_nontrivial"] += nsweep
     res["stats"] = {"gates": gates, "fault_sessions_replayed": len(items), "fault_kinds": {str(k): v for k, v in sorted(kinds.items(), key=str)},
+                    "schedules_past_a_lost_read_ahead_checked_by_the_direct_predicate_only": n_lost,
                     "byte_offset_cases": nsweep, "byte_offset_cases_per_transcript_and_kind": {"%s/%s" % k: v for k, v in sorted(per.items())},
                     "rule": "message-level: distinct (session, schedule); byte-level: every offset of every transcript x {eof, readerr, garbage}"}
     return res
@@ -157,7 +191,8 @@ def replay_atpsweep(d, work):
         check.log("VIOLATION property=C08 (the driver died)")
         return 1
     tr = {"ends": [int(x) for x in ae.split_top(ae.field(lines[0], "ends"))[1:]],
-          "okmsg": [int(x) for x in ae.split_top(ae.field(lines[0], "okmsg"))[1:]]}
+          "okmsg": [int(x) for x in ae.split_top(ae.field(lines[0], "okmsg"))[1:]],
+          "badhello": ae.field(lines[0], "badhello") == "(badhello 1)"}
     f = ae.split_top(lines[1])
     why = sweep_check(tr, f[2], int(f[3]), f[4])
     if why:
@@ -181,21 +216,36 @@ C08 = {
             "failures; model schedules (one per random choice list) are forced on the real client and every observable compared; "
             "(2) byte-offset sweep - transcripts recorded from the real RunATPServer (v3: 2 serial runs, 3 serial runs with a "
             "failing step, 3 concurrent runs) and synthesised in the v1 framing (1 and 2 runs) are replayed free-running to the real "
-            "client with the fault at EVERY byte offset x {EOF, read error, garbage}; hang = quiescence of all goroutines.",
+            "client with the fault at EVERY byte offset x {EOF, read error, garbage}; four hello messages that must be refused "
+            "(versions 2 and 9, a schema that does not unserialize, a nil schema) arrive intact and cut/garbled at every byte offset: "
+            "ReadSchema has to return an error; hang = quiescence of all goroutines, confirmed after pauses.",
     "assumptions": ["byte corruption that still decodes to a different well-formed message is indistinguishable from a lying peer and is "
                     "outside the property; 'garbage' = bytes that are not a CBOR item, followed by the end of the stream",
                     "a fault is sticky: once the stream has failed every later read fails too",
-                    "the version / schema faults of ReadSchema are covered by the sequential model of the handshake"],
-    "level_text": "Theorems: the read-loop invariant of C06 holds for every session, faulty peers included (a pending entry always has a "
-                  "live read loop, so a broken stream is always noticed); every step decreases the measure (no livelock, Close's "
-                  "wait is reached in finitely many steps); the critical section that handles a decode failure or a server-fatal "
-                  "message resolves EVERY entry and clears readLoopRunning (so every later Execute starts a loop that fails again); a "
-                  "caller returns success only if an intact work-done message for its run id was decoded (all sessions, all "
-                  "schedules); ReadSchema fails unless an intact hello with a supported version and a usable schema arrives and the "
-                  "start message could be written. D25 (write side fails, read loop still blocked: Close panics after 5 s) is "
+                    "read-ahead is modelled as whole items: when a read loop ends while its decoder still holds read-ahead (only after a "
+                    "misbehaving peer kept sending for runs the client had already failed) the model drops items, the real decoder on "
+                    "a fragmenting transport a byte prefix; from that step of such a schedule on, the replay checks the property's "
+                    "own predicate (every call returns, once, no panic) instead of equality with the model - the schedules are counted "
+                    "in the evidence",
+                    "the version / schema faults of ReadSchema are covered by the sequential model of the handshake (theorem) and by "
+                    "the bad-hello cases of the byte-offset sweep (implementation)"],
+    "level_text": "Theorems, machine-checked, closed under the global context, for every good session (distinct run ids, every run's "
+                  "script holds a terminal message or a fault; the scripted fault - EOF, read error, garbage, partial message - at ANY "
+                  "emission; write failures allowed) and every schedule: C08_all_released - every maximal execution ends with every "
+                  "Execute returned (C08_no_stuck: no reachable state with an unreturned Execute is stuck; C08_no_livelock); "
+                  "C08_fatal_exit_notices + C08_released_with_error - once the read loop has taken its fatal exit on the broken stream, "
+                  "every Execute that had not returned (pending or started later) returns an ERROR in every continuation; "
+                  "C08_no_fabricated_success - for EVERY session: a caller's Ok implies an intact work-done message for its run id with "
+                  "that output was decoded (ghost invariant); C08_close_returns - without write failures Close returns nil in every "
+                  "maximal execution and nothing the client started stays blocked; C08_readschema_errors / C08_v1_success_iff_intact "
+                  "(sequential handshake and v1 path). D25 (write side fails, read loop still blocked: Close panics after 5 s) is "
                   "refuted by a witness and kept as a known finding.",
-    "level_note": "Same model and tie as C06 (coq/ATP/Client.v through cmd/instrument + cmd/atpdrive) with fault scripts; the byte-offset "
-                  "sweep checks the property's own predicate on the implementation alone.",
+    "level_note": "Same model and tie as C06 (coq/ATP/Client.v through cmd/instrument + cmd/atpdrive) with fault scripts; the conservation "
+                  "invariant of C06 (Proofs/ATPClientInv.v) covers fault scripts and write failures, so no side condition is left on "
+                  "the theorems. The byte-offset sweep (every offset of five transcripts x {EOF, read error, garbage}, plus intact and "
+                  "cut hello messages with an unsupported version or an unusable schema) checks the property's own predicate on the "
+                  "implementation alone. Outside the theorems: a peer that stops answering on an intact stream; corruption that still "
+                  "decodes to another well-formed message; the 5 s timer is a model step.",
     "design_ref": "DESIGN.md §4, §5 C08",
     "trusted": ["cmd/instrument + cmd/atpdrive; the fault-injecting transports"],
 }
